@@ -106,7 +106,8 @@ def build_key(spec, label):
         uid = make_uid(u)
         kw = dict(usage=usage,
                   hashes=[HashAlgorithm.SHA256, HashAlgorithm.SHA512],
-                  ciphers=[SymmetricKeyAlgorithm.AES256, SymmetricKeyAlgorithm.AES128],
+                  ciphers=[SymmetricKeyAlgorithm(c) for c in spec['ciphers']] if spec.get('ciphers') else
+                  [SymmetricKeyAlgorithm.AES256, SymmetricKeyAlgorithm.AES128],
                   compression=[CompressionAlgorithm.ZLIB, CompressionAlgorithm.ZIP, CompressionAlgorithm.BZ2,
                                CompressionAlgorithm.Uncompressed])
         if first and spec.get('primary_flag'):
